@@ -3,9 +3,12 @@
 set -e
 cd "$(dirname "$0")"
 export GOFLAGS=-mod=mod GOPROXY=off GOSUMDB=off GOTOOLCHAIN=local CGO_ENABLED=0
-mkdir -p .build .work evidence replays
+mkdir -p .build .work evidence replays lean/SsqlVerif/Generated
+(cd harness/factsgen && go build -o ../../.build/factsgen .)
+.build/factsgen /repo facts.d > lean/SsqlVerif/Generated/Facts.lean.new
+mv lean/SsqlVerif/Generated/Facts.lean.new lean/SsqlVerif/Generated/Facts.lean
+python3 -c "import sys; sys.argv=['check']; exec(open('check').read().split('# ------------------------------------------------------------------ main')[0]); gen_registry()"
 (cd lean && lake build SsqlVerif ssqldrv)
 cp /repo/go.sum harness/go.sum
 (cd harness && go build -tags verif -o ../.build/verifharness .)
-if [ -d harness/factsgen ]; then (cd harness/factsgen && go build -o ../../.build/factsgen .); fi
 echo setup ok
